@@ -12,6 +12,9 @@ DesyncDetected over whole runs) and the detection of a real divergence are decid
 (monitor C09, families desync/glitch).
 -/
 import GgrsModel.Model.Inventory
+import GgrsModel.Model.Sites.P2pSession
+import GgrsModel.Model.Sites.Protocol
+import GgrsModel.Model.Sites.SyncLayer
 import GgrsModel.Model.P2P
 import GgrsModel.Proofs.Monad
 import GgrsModel.Proofs.Checksums
